@@ -64,9 +64,29 @@ package git
 //@   modifies fresh
 //@   loop 1 iter len(args) == iter(len(args)) + 1 && args[iter(len(args))] == i && forall_int(k, args[k], 0 <= k && k < iter(len(args)) ==> args[k] == iter(args[k]))
 //@   loop 2 iter len(args) == iter(len(args)) + 1 && forall_int(k, args[k], 0 <= k && k < iter(len(args)) ==> args[k] == iter(args[k]))
-//@ func revListArgs
-//@   props C03
+// The scanner runs git-rev-list(1) with exactly the arguments and the standard
+// input revListArgs computed from the caller's ids and options.
+//@ func NewRevListScanner
+//@   props C03 C12
 //@   requires @inv opt != nil
+//@   at call git.revListArgs:1 assert arg0__ == include && arg1__ == excluded && arg2__ == opt
+//@   at call git.gitNoLFS:1 assert arg0__ == args
+//@   at call (*subprocess.Cmd).Start:1 assert cmd.Stdin == stdin
+//@ func (RevListOrder).Flag
+//@   props C03 C12
+//@   ensures o == TopoRevListOrder ==> result1 && result0 == "--topo-order"
+//@   ensures o == DefaultRevListOrder || o == DateRevListOrder || o == AuthorDateRevListOrder || o == TopoRevListOrder
+//@   ensures o == DefaultRevListOrder ==> !result1
+//@   ensures o == DateRevListOrder ==> result1 && result0 == "--date-order"
+//@   ensures o == AuthorDateRevListOrder ==> result1 && result0 == "--author-date-order"
+// C12: a scan that asks for reversed topological order of commits only gets
+// --reverse and --topo-order on the command line and not --objects.
+//@ func revListArgs
+//@   props C03 C12
+//@   requires @inv opt != nil
+//@   ensures @C12 result2 == nil && opt.Order == TopoRevListOrder ==> contains(result1, "--topo-order")
+//@   ensures @C12 result2 == nil && opt.Reverse ==> contains(result1, "--reverse")
+//@   ensures @C12 result2 == nil && opt.CommitsOnly ==> forall_int(k, result1[k], 0 <= k && k < len(result1) ==> result1[k] != "--objects")
 //@   at call git.includeExcludeShas:2 assert arg0__ == include && arg1__ == exclude && len(opt.SkippedRefs) == 0
 //@   at call git.includeExcludeShas:3 assert arg0__ == include && arg1__ == exclude && len(opt.SkippedRefs) > 0
 //@   at call strings.Join:2 assert opt.Mode == ScanRangeToRemoteMode ==> len(args) >= 3 && args[len(args)-2] == "--not" && args[len(args)-1] == scat("--remotes=", opt.Remote)
